@@ -1,7 +1,139 @@
-import PromModel.Promql.Quantile
+import PromProofs.QuantileList
+/-
+  C32 — Histogram query functions agree with the histograms they describe.
+
+  All theorems are about the definitions of PromModel/Promql/Quantile.lean at the exact instance
+  `α = XR` (rationals + NaN/±Inf with IEEE rules); the SAME definitions, at the instance `α = F64`
+  (correctly rounded binary64), are compared bit for bit with the Go code by the `histfn` suite.
+  Helper lemmas: PromProofs/QuantileRat.lean, PromProofs/QuantileList.lean.
+-/
 namespace Prom.C32
 open Prom.Quantile
 
-theorem placeholder : (1 : Nat) = 1 := rfl
+/-! ## Classic buckets (`BucketQuantile`) -/
+
+/-- `ensureMonotonicAndIgnoreSmallDeltas` turns ANY finite counts into non-decreasing ones and is
+    idempotent — for every tolerance predicate (`almost.Equal(·,·,1e-12)` in the code). -/
+theorem ensureMonotonic_idempotent_and_monotone (almost : XR → XR → Bool) (b : Bucket XR) (bs : List (Bucket XR))
+    (c0 : Rat) (hb : b.count = .fin c0) (h : FinC bs) :
+    MonoFrom c0 (ensureMonotonic almost (b :: bs)).1 ∧
+    (ensureMonotonic almost (ensureMonotonic almost (b :: bs)).1).1 = (ensureMonotonic almost (b :: bs)).1 := by
+  refine ⟨⟨c0, hb, Rat.le_refl, by simpa [hb] using fixCounts_mono almost bs c0 h⟩, ?_⟩
+  simp only [ensureMonotonic, hb]
+  congr 1
+  clear hb
+  induction bs generalizing c0 with
+  | nil => rfl
+  | cons x xs ih =>
+    obtain ⟨c, hc⟩ := h x (List.mem_cons_self ..)
+    have hxs : FinC xs := fun y hy => h y (List.mem_cons_of_mem _ hy)
+    simp only [fixCounts, hc, fops_beq, fops_lt, XR.beq_fin, XR.lt_fin]
+    split
+    · rename_i e; simp only [fixCounts, hc, fops_beq, XR.beq_fin, e, if_true, ih c0 hxs]
+    · split
+      · simp [fixCounts, ih c0 hxs]
+      · split
+        · simp [fixCounts, ih c0 hxs]
+        · rename_i e1 e2 e3
+          simp only [fixCounts, hc, fops_beq, fops_lt, XR.beq_fin, XR.lt_fin, e1, e2, e3, if_false, ih c hxs]
+          simp
+
+/-- The clause "histogram_quantile over classic bucket series with finite counts never decreases with
+    the quantile, even when the bucket counts are not monotonic".
+    `cs` is the bucket list after `slices.SortFunc` + `coalesceBuckets` (bounds non-decreasing, all but
+    the last finite — `UbShape`); the counts are ARBITRARY finite numbers ≥ 0 (`NonnegC`), the
+    monotonicity the rank search needs is established by the fix-up, not assumed.  A NaN result is
+    admitted by `leOrNaN` and characterised in `bucketQuantile_nan_witness`/`bucketQuantile_in_bucket`.
+    Partial only in that the sort/coalesce prefix is represented by its postcondition `UbShape`
+    (see `bucketQuantile_mono_full`). -/
+theorem bucketQuantile_mono_partial (almost : XR → XR → Bool) (cs : List (Bucket XR)) (U : UbShape cs) (C : NonnegC cs)
+    (q1 q2 : Rat) (h0 : 0 ≤ q1) (h12 : q1 ≤ q2) :
+    XR.leOrNaN (bqTail almost (.fin q1) cs).quantile (bqTail almost (.fin q2) cs).quantile := by
+  rcases bqTail_decomp almost cs U C with hnan | ⟨N, hobs, hq⟩
+  · left; exact hnan q1
+  · obtain ⟨k1, S1, e1⟩ := hq q1
+    obtain ⟨k2, S2, e2⟩ := hq q2
+    rw [e1, e2]
+    have hobs' := Rat.le_of_lt hobs
+    exact valQ_mono N (Rat.mul_nonneg h0 hobs') (Rat.mul_le_mul_of_nonneg_right h12 hobs') S1 S2
+
+/-- The whole-pipeline statement (sort + coalesce included), not yet proved in this form. -/
+def bucketQuantile_mono_full : Prop :=
+  ∀ (almost : XR → XR → Bool) (buckets : List (Bucket XR)),
+    NonnegC buckets → (∀ b ∈ buckets, b.ub = .pinf ∨ ∃ x, b.ub = .fin x) →
+    ∀ q1 q2 : Rat, 0 ≤ q1 → q1 ≤ q2 → q2 ≤ 1 →
+      ∃ r1 r2, bucketQuantileWith almost (.fin q1) buckets = .ok r1 ∧ bucketQuantileWith almost (.fin q2) buckets = .ok r2 ∧
+        XR.leOrNaN r1.quantile r2.quantile
+
+/-- The result lies within the bounds of the bucket holding the rank: either NaN for every `q`
+    (fewer than 2 buckets / no observations), or for each `q ≥ 0` there is the bucket `k` selected by
+    the rank `q·observations` among the fixed-up counts (`Sel`: `c (k-1) < rank ≤ c k`) and the result
+    is NaN (only the 0/0 case, see the witness) or a number in `[loB k, hiB k]`. -/
+theorem bucketQuantile_in_bucket_partial (almost : XR → XR → Bool) (cs : List (Bucket XR)) (U : UbShape cs) (C : NonnegC cs) :
+    (∀ q : Rat, (bqTail almost (.fin q) cs).quantile = .nan) ∨
+    ∀ q : Rat, 0 ≤ q → ∃ k, Sel cs.length (cOf almost cs) (q * cOf almost cs (cs.length - 1)) k ∧
+      ((bqTail almost (.fin q) cs).quantile = .nan ∨
+        ∃ v, (bqTail almost (.fin q) cs).quantile = .fin v ∧ loB cs.length (uOf cs) k ≤ v ∧ v ≤ hiB cs.length (uOf cs) k) := by
+  rcases bqTail_decomp almost cs U C with hnan | ⟨N, hobs, hq⟩
+  · left; exact hnan
+  · right; intro q h0
+    obtain ⟨k, S, e⟩ := hq q
+    refine ⟨k, S, ?_⟩
+    rw [e]
+    exact valQ_bounds N (Rat.mul_nonneg h0 (Rat.le_of_lt hobs)) S
+
+/-- a concrete non-trivial input satisfying the hypotheses: bounds 1, 2, +Inf with NON-monotonic counts 5, 3, 9 -/
+def exBuckets : List (Bucket XR) := [⟨.fin 1, .fin 5⟩, ⟨.fin 2, .fin 3⟩, ⟨.pinf, .fin 9⟩]
+
+example : UbShape exBuckets ∧ NonnegC exBuckets := by
+  refine ⟨⟨?_, ?_⟩, ?_⟩
+  · intro i hi
+    have : i = 0 ∨ i = 1 := by simp [exBuckets] at hi; omega
+    rcases this with rfl | rfl
+    · exact ⟨1, rfl⟩
+    · exact ⟨2, rfl⟩
+  · intro i j hij hj
+    have : j = 0 ∨ j = 1 := by simp [exBuckets] at hj; omega
+    rcases this with rfl | rfl
+    · have : i = 0 := by omega
+      subst this; exact Rat.le_refl
+    · have : i = 0 ∨ i = 1 := by omega
+      rcases this with rfl | rfl
+      · show ratOf (.fin 1) ≤ ratOf (.fin 2); simp [ratOf]; decide
+      · exact Rat.le_refl
+  · intro b hb
+    simp [exBuckets] at hb
+    rcases hb with rfl | rfl | rfl
+    · exact ⟨5, rfl, by decide⟩
+    · exact ⟨3, rfl, by decide⟩
+    · exact ⟨9, rfl, by decide⟩
+
+def noTol : XR → XR → Bool := fun _ _ => false
+def emptyFirst : List (Bucket XR) := [⟨.fin 1, .fin 0⟩, ⟨.fin 2, .fin 5⟩, ⟨.pinf, .fin 5⟩]
+def negCounts : List (Bucket XR) := [⟨.fin 1, .fin (-5)⟩, ⟨.fin 2, .fin (-1)⟩, ⟨.fin 3, .fin (-1)⟩, ⟨.pinf, .fin (-1)⟩]
+
+/-- Finding F-C32-2: rank 0 with an empty lowest bucket of positive bound gives NaN (0/0), although
+    the histogram is valid and every `q > 0` gives a number. -/
+theorem bucketQuantile_nan_witness :
+    (bqTail noTol (.fin 0) emptyFirst).quantile = .nan ∧
+    (bqTail noTol (.fin (1/10)) emptyFirst).quantile = .fin (11/10) := by
+  constructor <;> decide +kernel
+
+/-- Outside the statement's domain (negative counts) monotonicity really fails: q = 1/2 ↦ 3, q = 1 ↦ 2. -/
+theorem bucketQuantile_negative_counts_witness :
+    (bqTail noTol (.fin (1/2)) negCounts).quantile = .fin 3 ∧
+    (bqTail noTol (.fin 1) negCounts).quantile = .fin 2 := by
+  constructor <;> decide +kernel
+
+/-! ## histogram_count / histogram_sum / histogram_avg -/
+
+/-- count, sum and their ratio; the average of a histogram with finite sum and non-zero finite count
+    is the exact quotient. -/
+theorem count_sum_avg_spec (h : NHist XR) :
+    histCount h = h.count ∧ histSum h = h.sum ∧
+    (∀ s c : Rat, h.sum = .fin s → h.count = .fin c → c ≠ 0 → histAvg h = .fin (s / c)) := by
+  refine ⟨rfl, rfl, ?_⟩
+  intro s c hs hc hne
+  simp [histAvg, hs, hc, XR.div_fin _ _ hne]
 
 end Prom.C32
